@@ -380,10 +380,25 @@ def g_forward_consistency(tier, seed):
     return res
 
 
+def _seq(temporaries):
+    def g(tier, seed):
+        from checks.c04 import seq_group
+        import geodepy.constants as gc
+        import geodepy.convert as cv
+        return seq_group(PID, 'O2', 'grid2geo%s' % (' (temporary ellipsoid objects)' if temporaries else ''),
+                         lambda cv_, v, e: cv_.grid2geo(v[2], v[0], v[1], 'South', e),
+                         (('east', -2830000, 3830000), ('north', 0, 10000000), ('zone', 1, 60, True)),
+                         'oracles.seq:convert_sequence', '@@none@@', tier, temporaries, mods=lambda: (gc, cv), dom=TC.DOM,
+                         ell_box=((TC.A_LO, TC.A_HI), (TC.F_LO, TC.F_HI)), around=TC.summaries, loop_bound=1, timeout_s=15,
+                         extra_args={'what': 'grid2geo'})
+    return g
+
+
 def groups(tier):
     cases = CASES_QUICK if tier == 'quick' else CASES_THOROUGH
     gs = [('coefficients', g_coefficients), ('validation', g_validation), ('mirror', g_mirror), ('standalone', g_standalone),
-          ('rounding_budget', g_rounding_budget), ('forward_consistency', g_forward_consistency)]
+          ('rounding_budget', g_rounding_budget), ('forward_consistency', g_forward_consistency), ('sequence', _seq(False)),
+          ('sequence_temporaries', _seq(True))]
     for c in cases:
         gs.append((('case_%s_%s_%s_%s' % tuple(str(x) for x in c)), _mk_group(c)))
     return gs
